@@ -93,7 +93,7 @@ Proof. split; vm_compute; reflexivity. Qed.
    bind_roundtrip — FULL STATEMENT, NOT YET PROVED (it is evaluated on every generated well-formed
    AST against both the implementation and the model by the harness):
 
-   Theorem bind_roundtrip : forall m bd, wf_bind bd = true ->
+   UNPROVED bind_roundtrip : forall m bd, wf_bind bd = true ->
      parse_keymap m (render bd) = Ok (Good (denote m bd)).
 
    What IS proved is its core, for all inputs: after `:` or `+` and a name that takes an argument,
